@@ -9,9 +9,9 @@ if [ ! -d $WT ]; then git -C /repo worktree add -q --detach $WT HEAD || exit 2; 
 cd $WT && git checkout -q --detach $(git -C /repo rev-parse HEAD) && git checkout -q -- . && rm -f tests/demo*.rs
 for P in "$@"; do
  for k in ${SEED_KS:-1 2 3 4}; do
-  patch=/tmp/seed/$P/OUT/patch$k.diff; demo=/tmp/seed/$P/OUT/demo$k.rs
+  patch=${SEED_ROOT:-/tmp/seed}/$P/OUT/patch$k.diff; demo=${SEED_ROOT:-/tmp/seed}/$P/OUT/demo$k.rs
   [ -f $patch ] && [ -f $demo ] || continue
-  out=/verif/seeded/$P-$k; mkdir -p $out
+  out=/verif/seeded/$P${SEED_SUFFIX:-}-$k; mkdir -p $out
   git checkout -q -- . ; rm -rf tests; mkdir -p tests; cp $demo tests/seed_demo.rs
   clean_demo=$(timeout 1200 cargo test --offline --test seed_demo 2>&1 | grep -E "^test result|error(\[|:)" | head -3 | tr '\n' ' ')
   if ! git apply --check $patch 2>/dev/null; then echo "$P-$k PATCH-DOES-NOT-APPLY"; continue; fi
@@ -25,7 +25,7 @@ for P in "$@"; do
   done
   mut_demo=$(timeout 1200 cargo test --offline --test seed_demo 2>&1 | grep -E "^test result|error(\[|:)" | head -3 | tr '\n' ' ')
   git checkout -q -- .
-  cp $patch $out/patch.diff; cp $demo $out/demo.rs; [ -f /tmp/seed/$P/OUT/NOTES.md ] && cp /tmp/seed/$P/OUT/NOTES.md $out/NOTES.seed-agent.md
+  cp $patch $out/patch.diff; cp $demo $out/demo.rs; [ -f ${SEED_ROOT:-/tmp/seed}/$P/OUT/NOTES.md ] && cp ${SEED_ROOT:-/tmp/seed}/$P/OUT/NOTES.md $out/NOTES.seed-agent.md
   python3 - "$P" "$k" "$clean_demo" "$lib" "$mut_demo" "$out" <<'PY'
 import sys, json, re
 P,k,clean,lib,mut,out=sys.argv[1:7]
